@@ -89,9 +89,12 @@ def check_C06(run):
 
 def check_C07(run):
     summ, obs = pipeline(run)
+    # update methods under the wrapping modes live in the struct family
+    import fam_struct
+    fam_struct.pipeline(run)
     n, d = summarise(run, obs, True)
-    run.assumptions = ASSUME + ["wrapErrors / wrapErrorsUsing location paths are not part of this family yet (plain propagation only)"]
-    return run.finish("every generated method with a fallible extend function executed without faults (nil error + normal result demanded) and with the fault plan {a} (an error that is one of the reachable injected ones demanded); programs that would drop an error must be refused; distinct = distinct (program, input, fault plan, result)", n, d)
+    run.assumptions = ASSUME + ["update methods are covered by two fixed programs of the struct family (one per wrapping mode), not by the program grammar of this family"]
+    return run.finish("every generated method with a fallible extend function / source method executed without faults (nil error + normal result demanded) and with the fault plan {a} (an error that is one of the reachable injected ones demanded, at the location the model computes: all elements outermost first under wrapErrorsUsing, the innermost element per method under wrapErrors); programs that would drop an error must be refused; distinct = distinct (program, input, fault plan, result)", n, d)
 
 
 CHECKS = {"C01": check_C01, "C06": check_C06, "C07": check_C07}
